@@ -123,9 +123,22 @@ PPaths gen_paths(Rng& r, int64_t mag, int maxpaths, int maxpts, bool z, const Fr
   return out;
 }
 
+// now and then the floating-point input is far outside what the integer engine can hold after scaling: the library
+// must reject it (range error) whatever the precision, never let it through
+static bool g_allow_blow_up = false;   // only in C10 cases generated for the builds without the strict signed-overflow check
+static void maybe_blow_up(PPathsD& pp, Rng& r) {
+  if (!g_allow_blow_up || !r.chance(0.06)) return;
+  // the input coordinates themselves stay within 2^40 (the property's range); it is coordinate x 10^precision that does not fit
+  double mx = 0; for (PPathD& p : pp) for (PPtD& q : p) mx = std::max(mx, std::max(std::fabs(q.x), std::fabs(q.y)));
+  if (mx <= 0) return;
+  double target = std::ldexp(1.0, (int)r.range(30, 40)) * (0.5 + 0.5 * r.unit());
+  double f = target / mx; if (f <= 1) return;
+  for (PPathD& p : pp) for (PPtD& q : p) { q.x *= f; q.y *= f; }
+}
 static PPathsD to_d(const PPaths& pp, double div, Rng& r, bool noise) {
   PPathsD out;
   for (const PPath& p : pp) { PPathD q; for (const PPt& a : p) { PPtD b; b.x = (double)a.x / div; b.y = (double)a.y / div; if (noise && r.chance(0.2)) { b.x += 0.25 / div; } b.z = a.z; q.push_back(b); } out.push_back(q); }
+  if (noise) maybe_blow_up(out, r);
   return out;
 }
 
@@ -412,6 +425,8 @@ Plan gen_c10(uint64_t seed, uint64_t run, const std::string& cfg) {
   Rng g(mix64(base, tag64("gen"))); Rng e(mix64(base, tag64("env")));
   pl.env = e.next() | 1;
   bool z = cfg.find('Z') != std::string::npos;
+  g_allow_blow_up = cfg.find("62") != std::string::npos;
+  struct Reset { ~Reset() { g_allow_blow_up = false; } } reset_on_exit;
   int sz = (int)g.below(100);
   int maxpaths = sz < 60 ? 2 : (sz < 92 ? 4 : 8), maxpts = sz < 55 ? 6 : (sz < 88 ? 14 : (sz < 98 ? 40 : 100));
   if (g.chance(0.08)) {                                          // phase C: faults inside object histories
@@ -558,7 +573,8 @@ Plan gen_c12(uint64_t seed, uint64_t run, const std::string& cfg) {
     // offset histories (no layout constraint): options, groups, repeated executes, clear
     int64_t ext = std::min<int64_t>(2000, std::max<int64_t>(4, f.ext));   // keeps the number of arc vertices executable (domain restriction, DESIGN 3.1.1)
     static const double dl[] = {0.4, 0.6, 1, 2, 3.5, 8};
-    auto D = [&]() { double d = g.chance(0.6) ? dl[g.below(6)] : (double)ext * (0.05 + g.unit()); return g.chance(0.4) ? -d : d; };
+    double lastD = 0; bool haveD = false;                      // repeated Executes with the very same delta are common in real use
+    auto D = [&]() { if (haveD && g.chance(0.55)) return lastD; double d = g.chance(0.6) ? dl[g.below(6)] : (double)ext * (0.05 + g.unit()); lastD = g.chance(0.4) ? -d : d; haveD = true; return lastD; };
     Op n = mkop("new_off"); n.o = 0; n.d = {g.chance(0.6) ? 2.0 : 1.0 + g.unit() * 4, g.chance(0.6) ? 0.0 : 0.25}; n.i = {(int64_t)g.below(2), (int64_t)g.below(2)}; pl.ops.push_back(n);
     int len = (int)g.range(3, 12); int nexec = 0;
     uint64_t sk = run / 8; int sklen = 1 + (int)(sk % 4); sk /= 4;
